@@ -58,7 +58,7 @@ def run_shard(ctx):
     q = ctx.quick()
     for name, strat, n in (
         ("commands", gen.commands(L), 120 if q else 3000),
-        ("responses", gen.responses(L, failed=False), 120 if q else 3000),
+        ("responses", gen.responses(L, unknown_cc=False), 120 if q else 3000),
         ("structures", gen.structures(L), 260 if q else 6000),
     ):
         ctx.run_given(st.tuples(strat, st.data()), body, ctx.share(n), name=name)
